@@ -90,6 +90,10 @@ type Executor struct {
 	ShardBits, ShardID int
 	MaxSwitches int
 	shallowTypes []types.Type
+	// witnesses: solver models of complete paths, for validating the translation against the native build
+	WitnessMax int
+	Witnesses  []Witness
+	witnessSeen int
 	eo         *eoCtx
 	reachCache map[*ssa.BasicBlock]map[int]bool
 }
@@ -373,7 +377,43 @@ func (ex *Executor) Run(fn *ssa.Function) {
 	}
 }
 
+type Witness struct {
+	ND      []NDRec
+	Model   map[string]string
+	Reached []string
+}
+
+func (ex *Executor) maybeWitness(st *State) {
+	if ex.WitnessMax == 0 || len(st.ND) == 0 {
+		return
+	}
+	for _, r := range st.ND {
+		if r.Kind != "int" && r.Kind != "bool" && r.Kind != "string" {
+			return // environment choices cannot be forced natively
+		}
+	}
+	ex.witnessSeen++
+	// keep the first few and then every 2^k-th path so that late parts of the exploration are sampled too
+	n := ex.witnessSeen
+	if len(ex.Witnesses) >= ex.WitnessMax && n&(n-1) != 0 {
+		return
+	}
+	res, model := ex.Solver.Model(st.PC, nil, ex.ndVars(st))
+	if res != smt.Sat {
+		return
+	}
+	w := Witness{ND: append([]NDRec(nil), st.ND...), Model: model, Reached: append([]string(nil), st.Reached...)}
+	if len(ex.Witnesses) < ex.WitnessMax {
+		ex.Witnesses = append(ex.Witnesses, w)
+	} else {
+		ex.Witnesses[n%ex.WitnessMax] = w
+	}
+}
+
 func (ex *Executor) endPath(st *State, kind, msg string) {
+	if kind == "ok" {
+		ex.maybeWitness(st)
+	}
 	ex.Stats.Paths++
 	ex.Stats.Steps += st.Steps
 	if len(st.PC) > 0 {
